@@ -37,6 +37,12 @@ pub fn show(cfg: &Cfg, s: &Snap) -> String {
         Kind::Arc => parts.push(format!("p={}", s.scalars[1])),
         _ => {}
     }
+    if !s.inner.is_empty() {
+        parts.push(format!("list-capacities={:?}", s.inner));
+    }
+    if s.shape != 0 {
+        parts.push("(a list of this object is MIS-LINKED; shown as read from the front)".into());
+    }
     if let Some(e) = &s.est {
         let bits: u32 = e.bitset.iter().map(|w| w.count_ones()).sum();
         parts.push(format!("est(w={},rows={:?},door_bits={})", e.w, e.rows, bits));
@@ -889,6 +895,23 @@ fn exec_findings(cfg: &Cfg, exec: &crate::driver::ExecReport, audit: &crate::dri
             out.push(Finding::new("C14", "iterators_need_a_well_formed_list", format!("{}/{}", kind, disc), format!("{} ({}) — back-to-front and front-to-back iteration cannot both be right", s, phase)));
         }
     }
+    // an entry node is owned by exactly one list: a node registered in two indexes (or linked into two
+    // chains) will be released by both of them
+    for (i, (na, ia, la)) in audit.owners.iter().enumerate() {
+        for (nb, ib, lb) in audit.owners.iter().skip(i + 1) {
+            let both_idx = ia.iter().filter(|p| ib.contains(p)).count();
+            let both_link = la.iter().filter(|p| lb.contains(p)).count();
+            let cross = ia.iter().filter(|p| lb.contains(p) && !ib.contains(p)).count() + ib.iter().filter(|p| la.contains(p) && !ia.contains(p)).count();
+            if both_idx + both_link + cross > 0 {
+                out.push(Finding::new(
+                    "C04",
+                    "one_owner_per_entry",
+                    format!("{}/{}+{}", kind, na, nb),
+                    format!("{} entry node(s) are registered in the index of both {} and {}, {} are linked into both chains, {} are indexed by one and linked into the other ({}): each owner will release them", both_idx, na, nb, both_link, cross, phase),
+                ));
+            }
+        }
+    }
     for e in &exec.alloc_errors {
         let disc = if e.contains("double free") { "double_free" } else { "bad_free" };
         out.push(Finding::new("C03", "allocator", format!("{}/{}", kind, disc), format!("{} ({})", e, phase)));
@@ -954,6 +977,45 @@ pub fn check_trans(cfg: &Cfg, pre: &Snap, probe: &Probe, op: Op, t: &TransRes, e
         None => return out,
     };
     bump(c, &format!("ret.{}", ret_class(ret)));
+    // A policy speaks about both ends of a list (new and promoted entries at the most-recent end, victims
+    // from the least-recent end). If the chain read back-to-front is not the mirror image of the chain
+    // read front-to-back, "the order" the policy prescribes does not exist in this object: the snapshot
+    // (read from the front) may look right while the next victim (read from the back) is wrong.
+    if post.shape != 0 {
+        let order: Vec<&String> = t
+            .audit
+            .structural
+            .iter()
+            .filter(|m| m.contains("prev does not point") || m.contains("mirror image") || m.contains("tail.prev") || m.contains("walk") || m.contains("appears twice") || m.contains("nodes but the index"))
+            .collect();
+        if !order.is_empty() {
+            let policy = match cfg.kind {
+                Kind::Raw => "C06",
+                Kind::Slru => "C07",
+                Kind::TwoQ => "C08",
+                Kind::Arc => "C09",
+                Kind::Wtlfu => "C10",
+            };
+            out.push(Finding::new(
+                policy,
+                "one_recency_order_from_both_ends",
+                format!("{}/{}", kind, op_name(&op)),
+                format!("after {:?} on {} the list has no single recency order (victims are taken from the back, the snapshot is read from the front): {:?}", op, show(cfg, pre), order),
+            ));
+        }
+    }
+    // C04: "purge releases every retained key and value" — resident and ghost alike
+    if op == Op::Purge {
+        let left: usize = post.lists.iter().map(|l| l.len()).sum();
+        if left > 0 || !post.serials.is_empty() {
+            out.push(Finding::new(
+                "C04",
+                "purge_releases_everything",
+                kind.clone(),
+                format!("after purge the cache still retains {} entr(y/ies) ({} tracked object(s)): {}", left, post.serials.len(), ctx(Some(post))),
+            ));
+        }
+    }
     if ret_has_dead(ret) {
         out.push(Finding::new("C03", "no_invalid_memory_handed_out", format!("{}/{}", kind, op_name(&op)), format!("the call handed out a key/value that is not a live, initialised object: {}", ctx(Some(post)))));
     }
